@@ -609,10 +609,14 @@ class MQTTProtocol(MQTTBaseProtocol):
         Tries to restore the session state upon a new MQTT connection made (publisher)
         '''
         #log.debug("{event}", event="Sync Persistent Session")
+        # only what an earlier connection left behind (no timer running) is resumed;
+        # requests made on this connection before its CONNACK have already been sent
         for _, reply in self.factory.windowPubRelease[self.addr].items():
-            self._retryRelease(reply, dup=True)
+            if reply.alarm is None:
+                self._retryRelease(reply, dup=True)
         for _, request in self.factory.windowPublish[self.addr].items():
-            self._retryPublish(request, dup=True)
+            if request.alarm is None:
+                self._retryPublish(request, dup=True)
 
     # --------------------------------------------------------------------------
 
@@ -621,15 +625,19 @@ class MQTTProtocol(MQTTBaseProtocol):
         Purges the persistent state in the client 
         '''
         #log.debug("{event}", event="Clean Persistent Session")
+        # only what an earlier connection left behind (no timer running) is purged;
+        # requests made on this connection before its CONNACK stay in flight
         for k in list(self.factory.windowPublish[self.addr]):
             request = self.factory.windowPublish[self.addr][k]
-            del self.factory.windowPublish[self.addr][k]
-            request.deferred.errback(reason)
+            if request.alarm is None:
+                del self.factory.windowPublish[self.addr][k]
+                request.deferred.errback(reason)
 
         for k in list(self.factory.windowPubRelease[self.addr]):
             request = self.factory.windowPubRelease[self.addr][k]
-            del self.factory.windowPubRelease[self.addr][k]
-            request.deferred.errback(reason)
+            if request.alarm is None:
+                del self.factory.windowPubRelease[self.addr][k]
+                request.deferred.errback(reason)
 
 
     # -------------------------------------
